@@ -320,7 +320,7 @@ def check_ser(env, prog, values, label):
             r = harness.call(o.value, v)
             if norm(r, completed=True) != n0c:
                 feats = {"kind": "pass-through-changes-result", "side": "serialize", "variant": r.kind, "exc": r.exc, "site": r.site}
-                if r.kind == "exc" and flags["dataclasses"] and "flatten" in prog.source:
+                if r.kind == "exc" and flags["dataclasses"] and any(isinstance(n, ObjectT) and any(f.flatten for f in n.fields) for n in t.walk()):
                     # explanatory defect model F23: a flattened dataclass field whose class is left as is by dataclasses=True
                     feats = {"kind": "pass-through-changes-result", "side": "serialize", "variant": "exc", "exc": r.exc, "cause": "flattened-field+dataclasses-passthrough"}
                 env.violation(feats, {**wit, "flags": flags, "types": repr(types), "variant": r.brief(), "completed": norm(r, True)[1][:300], "expected": n0c[1][:300]})
